@@ -95,7 +95,9 @@ int main(int argc, char** argv) {
 	const uint64_t CH = heavy ? 256 : 8192;
 	for (size_t ci = 0; ci < cfgs.size(); ++ci) {
 		auto& F = fams(cfgs[ci]);
-		for (size_t fi = 0; fi < F.size(); ++fi) {
+		std::vector<size_t> order; for (size_t f = 0; f < F.size(); ++f) order.push_back(f);
+		std::sort(order.begin(), order.end(), [&](size_t a, size_t b) { return F[a].count < F[b].count; });
+		for (size_t fi : order) {
 			uint64_t ch = cfgs[ci].light ? CH / 8 : CH;
 			for (uint64_t b = 0; b < F[fi].count; b += ch) units.push_back({ (int)ci, (int)fi, b, std::min(F[fi].count, b + ch) });
 		}
